@@ -3,6 +3,9 @@
 From Coq Require Import List NArith ZArith.
 From Coq.Strings Require Import Byte.
 From SP Require Import Bytes Params Msgpack Crypto Errors Packets Chunker Rand Sign Verify SignProofs SignAuthProofs SignAuthLocated.
+From SP Require Import Nonce Packets Signcrypt GoLang GoAst GoAstProofs GoAstProofs2.
+From Coq Require String.
+Import String.StringSyntax.
 Import ListNotations.
 
 Section C07.
@@ -49,6 +52,23 @@ Theorem C07_authentic (c : crypto) (Hsha : forall x, length (sha512 c x) = 64%na
       read_header_bytes sigfile = Ok (hdr, rest) /\ hdr = sig_header_bytes v mt_detached pk nonce)
   \/ DetBreak c vd pk L msg sigfile.
 Proof. exact (detached_authentic_located c Hsha vd kr msg sigfile pk L). Qed.
+(* SOURCE TIE: the terms f_saltpack_* are generated on every run from the Go syntax trees of
+   /repo (harness/cmd/gen/goast.go); under the Go semantics of model/GoLang.v, with the standard
+   library / NaCl primitives interpreted by ext_prims over the crypto record and calls to other
+   saltpack functions interpreted by the model (each of those has its own such theorem), they
+   compute exactly what the model says, for ALL arguments and EVERY instance of the primitives. *)
+Theorem C07_source_detachedSignatureInput (c : crypto) (hh msg : bytes) :
+  run_func (ext_model c) f_saltpack_detachedSignatureInput [VBytes hh; VBytes msg]
+  = ORet [VBytes (detached_sig_input c hh msg)].
+Proof. exact (go_detachedSignatureInput c hh msg). Qed.
+
+Theorem C07_source_detachedSignatureInputFromHash (c : crypto) (h : bytes) :
+  run_func (ext_prims c) f_saltpack_detachedSignatureInputFromHash [VBytes h]
+  = ORet [VBytes (detached_sig_input_from_hash h)].
+Proof. exact (go_detachedSignatureInputFromHash c h). Qed.
+
+Print Assumptions C07_source_detachedSignatureInput.
+Print Assumptions C07_source_detachedSignatureInputFromHash.
 Print Assumptions C07_authentic.
 
 Print Assumptions C07_roundtrip.
